@@ -58,10 +58,19 @@ def case_strategy(draw, ctx, kinds=("energy", "detector")):
         spec["objects"].append({"name": "box0", "lo": lo, "hi": hi,
                                 "material": draw(scenes.material_strategy(tiers=("iso", "diag"))), "order": 0})
     dlo, dhi = draw(scenes.box_strategy(sh, min_size=2))
+    det_comps = ["Ez"]
+    if kind == "detector":
+        # the convergence condition needs a reading that is not a cancelling mean: record the driven field component in
+        # a small box around an electric dipole
+        spec["sources"][0]["type"] = "dipole_e"
+        pol = spec["sources"][0]["pol"]
+        det_comps = ["E" + "xyz"[pol]]
+        dlo = [max(0, pos[a] - draw(st.integers(0, 1))) for a in range(3)]
+        dhi = [min(sh[a], pos[a] + 1 + draw(st.integers(0, 1))) for a in range(3)]
     # field readings are O(1e-3..1); energy readings are ~1e-20 (SI), where float32 squares underflow inside the
     # condition's own norm -> not a decidable domain for a float32 oracle
     spec["detectors"].append({"type": "field" if kind == "detector" else draw(st.sampled_from(["energy", "field"])), "name": "det", "exact": draw(st.booleans()),
-                              "switch": {}, "lo": dlo, "hi": dhi, "reduce": True, "components": ["Ez"]})
+                              "switch": {}, "lo": dlo, "hi": dhi, "reduce": True, "components": det_comps})
     case = {"scene": spec, "kind": kind, "thr_rank": draw(st.floats(0, 1, allow_nan=False, width=32)),
             "min_mode": draw(st.sampled_from(["default", "default", "zero", "mid", "after_peak", "after_peak", "after_peak"])),
             "max_mode": draw(st.sampled_from(["default", "mid", "late", "total", "above"])),
@@ -180,7 +189,12 @@ def body(ctx, case):
                                             min_steps=min_arg, max_steps=max_arg)
         trace_margin = min(abs(np.log(max(v, 1e-300) / thr)) for v in dist.values())
         # float32 readings: a distance within the rfft round-off of the threshold is undecidable -> out of domain
-        noise = 1e-5 * float(np.abs(readings).max()) * spp
+        # A volume-mean that cancels analytically is pure round-off (and differs between the stepwise reference and the
+        # while-loop run): such a trace, or a distance within the float32 noise of the threshold, is undecidable.
+        fscale = max(max(float(np.abs(E).max()), float(np.abs(H).max())) for E, H in snaps)
+        if float(np.abs(readings).max()) < 1e-3 * fscale:
+            raise Skip()
+        noise = max(1e-5 * float(np.abs(readings).max()), 3e-6 * fscale) * spp
         if any(abs(v - thr) <= noise for v in dist.values()):
             raise Skip()
 
